@@ -441,6 +441,11 @@ func c14LoadSeeds() {
 	for i := 0; i < 3; i++ {
 		c14Seeds.keys = append(c14Seeds.keys, []byte(refage.Bech32Encode("AGE-SECRET-KEY-", p.X25519[i])), []byte(refage.Bech32Encode("age", refage.X25519Public(p.X25519[i]))))
 	}
+	for _, h := range []string{"age-plugin-", "age-plugin--", "age-plugin-x-", "age1", "age1x", "age"} {
+		for _, n := range []int{0, 5, 32} {
+			c14Seeds.keys = append(c14Seeds.keys, []byte(refage.Bech32EncodeGroups(h, refage.To5(hx.PRG(uint64(n), n)), strings.HasPrefix(h, "age-"))))
+		}
+	}
 	c14Seeds.keys = append(c14Seeds.keys, []byte(plugin.EncodeRecipient("yubikey", []byte("abcde"))), []byte(plugin.EncodeIdentity("yubikey", []byte("abcde"))),
 		[]byte("# comment\n"+refage.Bech32Encode("AGE-SECRET-KEY-", p.X25519[0])+"\n\n"+refage.Bech32Encode("AGE-SECRET-KEY-", p.X25519[1])+"\r\n"))
 	c14Seeds.ssh = append(c14Seeds.ssh, p.EdPEM[0], p.EdEncPEM[0], p.RSAPEM[0], p.RSAEncPEM[0],
@@ -575,6 +580,81 @@ func c14CheckPlug(c c14Plug, st *stats.Run) error {
 	})
 }
 
+// armor-level damage of a valid file: whatever layer meets it first, the
+// failure carries the armor error type
+type c14ArmorDmg struct {
+	NRecs int    `json:"nrecs"`
+	Line  int    `json:"line"`
+	Kind  string `json:"kind"` // star | short | long | drop
+	Plain int    `json:"plain"`
+}
+
+func c14CheckArmorDamage(c c14ArmorDmg, st *stats.Run) error {
+	p := hx.ThePool()
+	var recs []hx.RecSpec
+	for i := 0; i < c.NRecs; i++ {
+		recs = append(recs, hx.RecSpec{Kind: "x25519", Idx: i % 8})
+	}
+	f := refFile(p, recs, hx.PRG(3, 16), 9, hx.PRG(4, c.Plain))
+	lines := strings.Split(strings.TrimSuffix(refage.Armor(f.Bytes()), "\n"), "\n")
+	body := len(lines) - 2
+	if body < 1 {
+		return nil
+	}
+	li := 1 + c.Line%body
+	switch c.Kind {
+	case "star":
+		b := []byte(lines[li])
+		b[len(b)/2] = '*'
+		lines[li] = string(b)
+	case "short":
+		if li == len(lines)-2 {
+			lines[li] += "A"
+		} else {
+			lines[li] = lines[li][:len(lines[li])-4]
+		}
+	case "long":
+		if li == len(lines)-2 {
+			return nil // lengthening the short last line can stay well-formed armor
+		}
+		lines[li] += "AAAA"
+	case "drop":
+		if li == len(lines)-2 {
+			return nil // dropping the last body line leaves valid armor of a truncated file
+		}
+		lines = append(lines[:li:li], lines[li+1:]...)
+	}
+	text := strings.Join(lines, "\n") + "\n"
+	st.Case(true, stats.HashJSON(c), "armor-damage:"+c.Kind, fmt.Sprintf("armor-damage:recipients=%d", c.NRecs))
+	st.Sample("armor-damage", c)
+	var err error
+	gerr := guard("Decrypt(armor)", []byte(text), func() error {
+		r, derr := age.Decrypt(armor.NewReader(strings.NewReader(text)), p.X25519Identity(0))
+		if derr == nil {
+			_, derr = io.ReadAll(r)
+		}
+		err = derr
+		return nil
+	})
+	if gerr != nil {
+		return gerr
+	}
+	if err == nil {
+		if c.Kind == "drop" {
+			return nil // a dropped full line can only be noticed by the payload authentication: still must fail
+		}
+		return pbt.Failf("C14/armor-damage-accepted", "armored file with damaged body line %d (%s) decrypted", li, c.Kind)
+	}
+	if c.Kind == "drop" {
+		return nil // the armor stays well-formed; the error comes from the age layer
+	}
+	var ae *armor.Error
+	if !errors.As(err, &ae) {
+		return pbt.Failf("C14/armor-error-type", "a valid file with %d recipients whose armored line %d was damaged (%s) fails with %T (%v): the armor failure does not carry the *armor.Error type", c.NRecs, li, c.Kind, err, err)
+	}
+	return nil
+}
+
 func TestC14(t *testing.T) {
 	s := pbt.Start(t, "C14")
 	defer s.Finish()
@@ -607,6 +687,21 @@ func TestC14(t *testing.T) {
 		}
 		s.St.Exhaust("seed corpora replayed unmodified through their targets", int64(n))
 	}, run)
+	pbt.Each(s, "armor-damage", func(yield func(c14ArmorDmg)) {
+		n := 0
+		for nr := 1; nr <= 16; nr++ {
+			lines := (nr*93+60+150)/48 + 2
+			for li := 0; li < lines; li++ {
+				for _, k := range []string{"star", "short", "long"} {
+					if s.Mine(n) {
+						yield(c14ArmorDmg{NRecs: nr, Line: li, Kind: k, Plain: 100})
+					}
+					n++
+				}
+			}
+		}
+		s.St.Exhaust("valid armored files with 1..16 recipients, each body line damaged in 3 ways: the error must be an *armor.Error", int64(n))
+	}, func(c c14ArmorDmg) error { return c14CheckArmorDamage(c, s.St) })
 	counts := map[string][2]int{"decrypt": {6000, 40000}, "decrypt-armored": {3000, 20000}, "armor": {10000, 80000}, "parse": {15000, 100000}, "keys": {15000, 100000}, "ssh": {4000, 25000}, "plugin": {10000, 60000}}
 	for _, tg := range []string{"decrypt", "decrypt-armored", "armor", "parse", "keys", "ssh", "plugin"} {
 		pbt.Rapid(s, "bytes-"+tg, s.N(counts[tg][0], counts[tg][1]), c14Gen(tg), run)
